@@ -47,7 +47,8 @@ KIND = {1: "varint-encode", 2: "varint-decode", 3: "makeUnsigned", 4: "makeUnsig
         16: "/p2p address form (IDFromP2PAddr, SplitAddr, AddrInfoFromP2pAddr)", 17: "hand-sealed relay voucher",
         19: "edited private-key blob"}
 REGION = {0: "none", 1: "protobuf framing", 2: "ed25519 seed", 3: "ed25519 public half", 4: "key data", 5: "truncation",
-          6: "extension", 7: "legacy 96-byte form", 8: "legacy form, copies differ"}
+          6: "extension", 7: "legacy 96-byte form", 8: "legacy form, copies differ",
+          9: "std-library key with altered seed imported by KeyPairFromStdKey"}
 
 
 class Rd:
@@ -137,7 +138,7 @@ def describe(t):
             d["voucher"] = {"relay_hex": r.b().hex(), "peer_hex": r.b().hex(), "expiration": r.z() * 2 ** 32 + r.z()}
         elif k == 19:
             d["key_type"] = r.z(); d["edit_region"] = REGION.get(r.z())
-            d["original_blob_hex"] = r.b().hex()[:160]; d["edited_blob_hex"] = r.b().hex()[:160]
+            d["original_blob_hex"] = r.b().hex()[:160]; d["edited_blob_hex"] = r.b().hex()[:160]; d["public_key_of_seed_hex"] = r.b().hex()
             d["class(3=accepted)"], d["equal_any"], d["equal_all"], d["remarshals_to_original"], d["signs_for_own_public_key"], d["signs_for_original_public_key"] = t[r.p + 1:r.p + 7]
         elif k == 13:
             d["modulus_bits"], d["private"], d["class(3=accepted)"], d["roundtrip"] = t[1:5]
@@ -208,7 +209,7 @@ def what(tag, toks, d):
         (17, 171): "an accepted relay voucher holds fields other than those of the sealed payload",
         (17, 172): "a payload that is not a voucher (relay or peer missing / not a peer ID) was accepted as one",
         (19, 190): "MarshalPrivateKey then UnmarshalPrivateKey did not yield an equal key",
-        (19, 191): "an edited private-key blob unmarshals to a key reported EQUAL to the original although what it signs does not verify under the original public key",
+        (19, 191): "an edited private-key blob unmarshals to (or an altered key imports as) a key reported EQUAL to the original although what it signs does not verify under the original public key",
         (19, 192): "an edited private-key blob unmarshals to a private key whose signatures do not verify under its own GetPublic()",
         (13, 131): "an RSA key of a size that can be generated does not unmarshal / round-trip",
     }.get((k, clause))
@@ -246,6 +247,6 @@ if __name__ == "__main__":
              "non-minimal varints/enum truncation), foreign key and foreign signature pairings, re-sealing by a foreign key, wrong domains. "
              "Byte-level functions (uvarint, makeUnsigned, MarshalPublicKey, IDFromPublicKey, base58/CID text, multihash, protobuf scan of "
              "every mutated envelope/key) are compared byte for byte with the Coq model (conform_case); every attempt is judged by the "
-             "property monitor (monitor_case). Also: every accepted non-canonical serialization of each key (unknown fields, order, redundant varints, repeated fields) stand-alone and inside envelopes must give an equal key with the same marshalled form and the same ID; alias IDs (identity multihash over such serializations, inline form of hashed keys, hashed form of inlined keys) as MatchesPublicKey probes and as PeerRecord.PeerID through both peerstores; RSA moduli of 1024..16384 bits around MinRsaKeyBits/maxRsaKeyBits plus one embedded real 8192-bit key pair (private/public round trip, all ID forms, a signature). Round 2: sig(x) tried on sha256/sha512/sha512-256/sha1/sha384(x) and sig(H(x)) on x for every key type, messages of exactly 0..65 bytes; IDs made and keys extracted under both values of AdvancedEnableInlining (binary, base58, CID forms); Seal, then the producer edits/reuses the record, then Record()/TypedRecord/both peerstores on the same *Envelope; multiaddrs from component lists incl. relay/circuit forms (IDFromP2PAddr vs SplitAddr vs AddrInfoFromP2pAddr vs the model); relay voucher payloads written by hand (fields removed/empty/repeated/reordered), sealed and consumed into fresh and reused destinations. Round 3: every byte flipped / every truncation / extension / legacy forms of marshalled PRIVATE keys of every type (error, or not reported equal unless interchangeable with the original; whatever unmarshals must sign for its own public key); ECDSA keys on P-224/P-384/P-521 (GenerateECDSAKeyPairWithCurve, KeyPairFromStdKey) through the key, signature, digest, ID, alias, envelope and peer-record streams; two different sealed records (PeerRecord, voucher, generic) consumed into ONE destination via ConsumeTypedEnvelope / TypedRecord. Non-trivial = envelope, signature, key-edit, alias, MatchesPublicKey, RSA-size and colliding-concatenation cases.",
+             "property monitor (monitor_case). Also: every accepted non-canonical serialization of each key (unknown fields, order, redundant varints, repeated fields) stand-alone and inside envelopes must give an equal key with the same marshalled form and the same ID; alias IDs (identity multihash over such serializations, inline form of hashed keys, hashed form of inlined keys) as MatchesPublicKey probes and as PeerRecord.PeerID through both peerstores; RSA moduli of 1024..16384 bits around MinRsaKeyBits/maxRsaKeyBits plus one embedded real 8192-bit key pair (private/public round trip, all ID forms, a signature). Round 2: sig(x) tried on sha256/sha512/sha512-256/sha1/sha384(x) and sig(H(x)) on x for every key type, messages of exactly 0..65 bytes; IDs made and keys extracted under both values of AdvancedEnableInlining (binary, base58, CID forms); Seal, then the producer edits/reuses the record, then Record()/TypedRecord/both peerstores on the same *Envelope; multiaddrs from component lists incl. relay/circuit forms (IDFromP2PAddr vs SplitAddr vs AddrInfoFromP2pAddr vs the model); relay voucher payloads written by hand (fields removed/empty/repeated/reordered), sealed and consumed into fresh and reused destinations. Corpus (always first): a fixed Ed25519 key whose private blob with an altered seed / public half must be an unmarshal error (defect repaired in a5f52a7). Round 3: every byte flipped / every truncation / extension / legacy forms of marshalled PRIVATE keys of every type (error, or not reported equal unless interchangeable with the original; whatever unmarshals must sign for its own public key); ECDSA keys on P-224/P-384/P-521 (GenerateECDSAKeyPairWithCurve, KeyPairFromStdKey) through the key, signature, digest, ID, alias, envelope and peer-record streams; two different sealed records (PeerRecord, voucher, generic) consumed into ONE destination via ConsumeTypedEnvelope / TypedRecord. Non-trivial = envelope, signature, key-edit, alias, MatchesPublicKey, RSA-size and colliding-concatenation cases.",
         describe=describe, key=key, what=what, crosscheck=60,
     ))
